@@ -7,7 +7,7 @@ Keys are bit lists (the encoded form of the Go key: `Marshal(cell, k)`), values 
 The dictionary state is the list of (key, value) pairs in slice order (Go keeps two parallel slices of equal length;
 `NewHashmap` with slices of different lengths is outside the model).
 
-MODEL (mirrors the code): `commonLabel`/`encLabelBits` = encodeLabel, `splitKeys` + `encodeMap` = Hashmap.encodeMap,
+MODEL (mirrors the code): `commonLabel`/`encLabelBits`/`allSame` = encodeLabel, `splitKeys` + `encodeMap` = Hashmap.encodeMap,
 `sortKV` + `marshal`/`marshalE` = Hashmap.MarshalTLB / HashmapE.MarshalTLB, `loadLabel` = loadLabel, `mapInner`,
 `unmarshal`/`unmarshalE`, `get`, `put`.
 SPEC: `Lbl`, `HTree`, `HTree.Valid`, `HTree.meaning`, `HTree.toCell` — the TL-B definition of `Hashmap n X` with any of the
@@ -66,10 +66,21 @@ def commonLabel (keySize : Int) (first last : Key) : Outcome Key :=
   | [] => .err "not enough bits"
   | b :: rest => labelLoop keySize b rest last
 
-/-- the bits encodeLabel writes for `label`: hml_short for fewer than 8 bits, else hml_long; never hml_same -/
+/-- allBitsEqual -/
+def allSame : Key → Bool
+  | [] => true
+  | b :: r => r.all (· == b)
+
+/-- the bits encodeLabel writes for `label`: TON's shortest form (crypto/vm/dict.cpp append_dict_label). With
+`k` = width of the length field: hml_same (3 + k bits) for an all-equal label of n > 1 bits when k < 2n − 1; else
+hml_long (2 + k + n) when k < n; else hml_short (2 + 2n). -/
 def encLabelBits (label : Key) (keySize : Int) : List Bool :=
-  if label.length < 8 then false :: (unary label.length ++ label)
-  else true :: false :: (Bits.natToBits (lenWidth keySize) label.length ++ label)
+  let n := label.length
+  let k := lenWidth keySize
+  if n > 1 ∧ k < 2 * n - 1 ∧ allSame label = true then
+    true :: true :: label.headD false :: Bits.natToBits k n
+  else if k < n then true :: false :: (Bits.natToBits k n ++ label)
+  else false :: (unary n ++ label)
 
 /-- the partition loop of encodeMap: skip `l` label bits, branch on the next bit, keep the rest; relative order kept -/
 def splitKeys {V : Type} (l : Nat) : List (Key × V) → Outcome (List (Key × V) × List (Key × V))
